@@ -37,6 +37,7 @@ def evaluator_poly(prog, cls, scalar, name, coords, extra_sig=None, hook=None, e
         return None, None
     fn = fns[0]
     E = terms.Evaluator(prog, dyn_class=cls, scalar=scalar)
+    E.init_mem = dict(cat.ctor_flags(prog, cls))     # validity flags as construction leaves them: the first evaluation is analysed
     if hook:
         E.opaque_hook = hook
     if freeze:
